@@ -203,7 +203,7 @@ func Run(r *vf.Run) {
 		kinds = append(kinds, k)
 	}
 	sort.Strings(kinds)
-	nPat := r.Pick(6000, 150000)
+	nPat := r.Pick(30000, 150000)
 	perPat := r.Pick(6, 10)
 	evals, nontrivial := 0, 0
 	okMatches, recallsChecked, undefinedN, realPanicsTypedNil := 0, 0, 0, 0
